@@ -18,6 +18,7 @@ mod c07;
 mod c15;
 mod c16;
 mod c17;
+mod c14_close;
 mod c17_after;
 mod c18;
 mod c18_conn;
